@@ -289,11 +289,14 @@ func c10Flow(r *mon.Run, rng *rand.Rand, w *world, f *flow) {
 		}
 	}
 	id, seq := uint16(rng.IntN(1<<16)), uint16(rng.IntN(1<<16))
+	trExt := rng.IntN(4) // extension headers in front of the SCMP header
 	tr := f.packet(rng, func(p *rfix.PktSpec) {
 		p.L4 = rfix.L4SCMPTraceReq
 		p.DstPort, p.Seq = id, seq
 		p.Payload = nil
+		p.HBH, p.E2E = trExt&1 != 0, trExt&2 != 0
 	})
+	r.Class(fmt.Sprintf("traceroute-request/ext=%d", trExt))
 	th, err := rfix.ParseHdr(tr)
 	if err != nil {
 		r.Inconclusive("ref-parse")
